@@ -332,7 +332,7 @@ def pretty(t, width=110):
 def _also_sd():
     """the strategy drivers (coq/theories/PySrcSd.v) are regenerated by the same command"""
     sys.path.insert(0, os.path.dirname(os.path.abspath(__file__)))
-    import py2coq_sd, py2coq_core, py2coq_perc, py2coq_blocks, py2coq_getters, py2coq_succ, py2coq_names, py2coq_clingo, py2coq_retained, py2coq_filter
+    import py2coq_sd, py2coq_core, py2coq_perc, py2coq_blocks, py2coq_getters, py2coq_succ, py2coq_names, py2coq_clingo, py2coq_retained, py2coq_filter, py2coq_collect
     a = py2coq_sd.main(sys.argv)
     b = py2coq_core.main(sys.argv)
     c = py2coq_perc.main(sys.argv)
@@ -343,7 +343,8 @@ def _also_sd():
     h = py2coq_clingo.main(sys.argv)
     i = py2coq_retained.main(sys.argv)
     j = py2coq_filter.main(sys.argv)
-    return max(a, b, c, d, e, f, g, h, i, j)
+    k = py2coq_collect.main(sys.argv)
+    return max(a, b, c, d, e, f, g, h, i, j, k)
 
 if __name__ == "__main__":
     rc_sd = 0
